@@ -606,6 +606,7 @@ class Recorder:
         self.exp, self.log, self.pow = {}, {}, {}
         self.maxabs = 0.0
         self.nonfinite = False
+        self.mm_unspec = False        # a max/min met a NaN operand or a tie of zeros of opposite sign: unspecified in gfortran
 
     def see(self, x):
         try:
@@ -661,11 +662,18 @@ def pyev(n, rd, rec, npm):
             rec.log[lib.fhex(a)] = (float(a), float(r))
     elif k == 'm':
         a, b = pyev(n[2], rd, rec, npm), pyev(n[3], rd, rec, npm)
+        if a != a or b != b or (a == 0 and b == 0 and math.copysign(1.0, a) != math.copysign(1.0, b)):
+            rec.mm_unspec = True
         r = max(a, b) if n[1] == 'max' else min(a, b)
     else:
         raise AssertionError(n)
     rec.see(r)
     return r
+
+
+def ordered_eqs(prog, names):
+    """Both code generators emit the equations in the order of the symbols (= order of the left-hand names in NAMES)."""
+    return sorted(prog['eqs'], key=lambda q: names.index(q[0]))
 
 
 def replay(prog, names, snaps, npm):
@@ -679,7 +687,7 @@ def replay(prog, names, snaps, npm):
 
             def rd(nm, k, V=V, t=t):
                 return V[row[nm]][t + k]
-            for lhs, rhs in prog['eqs']:
+            for lhs, rhs in ordered_eqs(prog, names):
                 try:
                     x = pyev(rhs, rd, rec, npm)
                     V[row[lhs]][t] = x
@@ -715,13 +723,15 @@ def impl(case):
     rec = replay(prog, names, snaps, np)
     obs['maxabs'] = lib.fhex(rec.maxabs)
     obs['interm_nonfinite'] = rec.nonfinite
+    obs['mm_unspec'] = rec.mm_unspec
     chk = obs['check']
     margins = []
     tol = lib.unhex(case['opts']['tol'])
     # check vectors before each pass of one period, then the final one
     seqs = {}
     for t, V in snaps:
-        seqs.setdefault(t, []).append([float(V[i][t]) for i in chk])
+        if -case['n'] <= t < case['n']:
+            seqs.setdefault(t, []).append([float(V[i][t]) for i in chk])
     final = np.array([[lib.unhex(x) for x in r] for r in obs['py']['vals']])
     for t, vs in seqs.items():
         vs = vs + [[float(final[i][t]) for i in chk]]
@@ -809,7 +819,7 @@ def c_expr(n, row):
     if k == 'd':
         return '(EDec %s %s)' % (lib.cfloat(lib.fhex(float(n[1]))), lib.cfloat(lib.fhex(float(np.float32(n[1])))))
     if k == 'par':
-        return c_expr(n[1], row)
+        return '(EPar %s)' % c_expr(n[1], row)
     if k == 'neg':
         return '(ENeg %s)' % c_expr(n[1], row)
     if k == 'b':
@@ -869,6 +879,16 @@ def f_side_compared(case, obs):
     return same_obs(ref, obs['f'])
 
 
+def minmax_unspecified(case, obs):
+    """MAX/MIN with a NaN operand or with zeros of opposite sign: gfortran's result depends on the code it happens to emit
+    (observed both ways), so the Fortran model is not compared on runs that can have met one."""
+    if not has_node(case['prog']['eqs'], lambda n: n[0] == 'm'):
+        return False
+    if obs.get('mm_unspec'):
+        return True
+    return any(not _fin(x) for o in (obs['py'], obs['f']) if o is not None for r in o['vals'] for x in r)
+
+
 def r4_transcendental(prog):
     """exp/log/** evaluated in single precision at compile time (MPFR): no table can be recorded for them."""
     for _l, r in prog['eqs']:
@@ -885,7 +905,7 @@ def r4_transcendental(prog):
 def c_ccase(case, obs):
     names = obs['names']
     row = {nm: i for i, nm in enumerate(names)}
-    prog = lib.clist('(%d%%nat, %s)' % (row[lhs], c_expr(rhs, row)) for lhs, rhs in case['prog']['eqs'])
+    prog = lib.clist('(%d%%nat, %s)' % (row[lhs], c_expr(rhs, row)) for lhs, rhs in ordered_eqs(case['prog'], names))
     o = case['opts']
     desc = '(mkDesc %s %s %d%%nat %d%%nat)' % (lib.clist('%d%%nat' % i for i in obs['check']), lib.clist('%d%%nat' % i for i in obs['endo']), obs['lags'], obs['leads'])
     fm = obs['fmod']
@@ -914,7 +934,7 @@ def c_ccase(case, obs):
     py = c_obs(case['entry'], obs['py'])
     if obs['f'] is None:
         f = '(Some (%s, XNoCompile))' % st0
-    elif f_side_compared(case, obs) and not r4_transcendental(case['prog']):
+    elif f_side_compared(case, obs) and not r4_transcendental(case['prog']) and not minmax_unspecified(case, obs):
         f = c_obs(case['entry'], obs['f'])
     else:
         f = 'None'
@@ -1137,7 +1157,8 @@ def oracle(case, obs):
     def bad(sig, what):
         fails.append({'sig': 'C07|' + sig, 'what': what})
     if case['kind'] == 'text':
-        return oracle_text(case, obs, bad)
+        oracle_text(case, obs, bad)
+        return fails
     prog = case['prog']
     cls = classify_program(prog['eqs'])
     n = case['n']
@@ -1180,6 +1201,13 @@ def oracle(case, obs):
                 bad('solve_t|max_iter<=0|FortranEngineError',
                     'max_iter <= 0: Python engine records F / 0 iterations (%s), Fortran engine raises FortranEngineError (error_code stays -1)' % (pyo,))
             return fails
+    if (case['entry'] == 'solve' and o['offset'] != 0 and o['errors'] != 'raise' and o['min_iter'] <= o['max_iter']
+            and any(not (0 <= p + o['offset'] < n) for p in ps)):
+        # the template keeps going after an offset error when error_control is not 'raise'; the wrapper raises afterwards
+        if pyo[:2] == ['raise', 'IndexError'] and fo[:2] == ['raise', 'IndexError'] and (py['vals'] != f['vals']):
+            bad('solve|offset-out-of-span|later-periods-solved',
+                'solve(offset=%d, errors=%r): both engines raise IndexError, but the Fortran engine has already solved the later periods and stored their values' % (o['offset'], o['errors']))
+        return fails
     # ---- finite regime only ("on all data for which values stay finite")
     ref = obs['pyl'] if obs['pyl'] is not None else py
     finite = py['finite'] and not obs['interm_nonfinite'] and all(_fin(x) for r in f['vals'] for x in r) and all(_fin(x) for r in ref['vals'] for x in r)
